@@ -72,4 +72,15 @@ bool ops_codec(Ctx& c, const json& s, int idx, bool& handled) {
 		if (err != wantErr) { Proto::mismatch(site, err ? "refused-should-accept" : "accepted-should-refuse", note()); return false; }
 		if (wantErr ? n > wantDelivered : n < wantDelivered) { Proto::mismatch(site, "count", note()); return false; }
 		return true; }
+	// ---- the bit cursor under the decoder (spec/BitReader.tla): every walk of bit / byte reads to the stated depth -------------------
+	if (op == "bit_walk") { std::vector<unsigned char> in; for (auto& b : s["input"]) in.push_back((unsigned char)b.get<int>()); unsigned char dummy = 0;
+		Archive::BitStreamReader r(in.empty() ? &dummy : in.data(), in.size()); const std::size_t nbits = in.size() * 8; int k = 0;
+		if (r.EndOfStream() != (nbits == 0) || r.GetBitReadPos() != 0) { Proto::mismatch(site, "initial-state", where("")); return false; }
+		for (auto& c : s["calls"]) { ++k; const bool bit = c["op"] == "bit"; int out = bit ? (r.ReadNextBit() ? 1 : 0) : r.ReadNext8Bits();
+			auto note = [&] { return where("call " + std::to_string(k) + " " + c.dump() + " returned " + std::to_string(out) + " position " + std::to_string(r.GetBitReadPos()) + " eos " + std::to_string(r.EndOfStream())); };
+			if (out != c["out"].get<int>()) { Proto::mismatch(site + (bit ? "/ReadNextBit" : "/ReadNext8Bits"), "value", note()); return false; }
+			if (r.EndOfStream() != c["eos"].get<bool>()) { Proto::mismatch(site + "/EndOfStream", "value", note()); return false; }
+			// the exact cursor value is pinned only while it is inside the input; past the end it need only stay past the end
+			const std::size_t want = c["pos"]; if (want <= nbits ? r.GetBitReadPos() != want : r.GetBitReadPos() < nbits) { Proto::mismatch(site + "/GetBitReadPos", "value", note()); return false; } }
+		return true; }
 	OPS_EPILOGUE }
